@@ -152,11 +152,13 @@ type pathEnd struct {
 }
 
 func (m *Machine) spawn(fr *frame, pos token.Pos, fn value, args []value) {
+	// possible context switch before the go statement takes effect (natively the replay gate sits
+	// in front of the statement); the new goroutine can first run at the spawner's next visible operation
+	m.yield(fr)
 	g := &G{id: len(m.gs), wake: make(chan struct{}, 1), doneIdx: -1}
 	g.tag = g.id
 	m.gs = append(m.gs, g)
 	m.startG(g, pos, fn, args)
-	m.yield(fr)
 }
 
 
